@@ -62,7 +62,17 @@ def havoc(e, st, body, lspec, extra_names=()):
     """forget everything the loop body may change: assigned names (scalars only), stored-to arrays, arrays in the
     frames of contracted callees, and whatever the loop spec lists under modifies"""
     names = assigned_names(body) | set(extra_names)
+    names |= {m for m in lspec.modifies if m in st.env and not isinstance(st.env[m], Arr)}      # ghost scalars updated by callee contracts
     arrs = stored_array_names(body) | set(lspec.modifies)
+    # 1-D view variables re-bound in the loop (block = block[k:]): same base, arbitrary new window (the invariant says which)
+    for nm in lspec.views:
+        v = st.env.get(nm)
+        if not isinstance(v, Arr) or v.ndim != 1 or len(v.axes) != 1:
+            raise ContractError(f'loop spec declares {nm} as a re-bound 1-D view, found {v!r}')
+        off, ln = fresh(nm + '_off', z3.IntSort()), fresh(nm + '_len', z3.IntSort())
+        st.pc += [off >= 0, ln >= 0]
+        st.env[nm] = Arr(v.base, [('r', off, ln)], v.ety, v.dt, v.readonly)
+    names -= set(lspec.views) | set(lspec.kinds)      # kinds: re-created per structural mode by expand_kinds
     # arrays written by contracted callees
     for c in called_names(body):
         fn = c.func
@@ -115,6 +125,31 @@ def havoc(e, st, body, lspec, extra_names=()):
     return bases
 
 
+def expand_kinds(e, h, lspec):
+    """structural modes: a variable that is None in some iterations and an array in others gets one loop head per kind
+    (the step is verified from every head; the end of the body is checked against whatever structure the path produced)"""
+    heads = [h]
+    for nm, kinds in sorted(lspec.kinds.items()):
+        nxt = []
+        for hd in heads:
+            for kd in kinds:
+                q = hd.fork() if len(kinds) > 1 else hd
+                if kd == 'none':
+                    q.env[nm] = None
+                else:
+                    m = __import__('re').fullmatch(r'(\w+)\[:\]', kd)
+                    if not m:
+                        raise ContractError(f'loop kinds: unsupported kind {kd}')
+                    ln = fresh('len_' + nm, z3.IntSort())
+                    q.pc.append(ln >= 0)
+                    cur = hd.env.get(nm)
+                    dt = cur.dt if isinstance(cur, Arr) else None
+                    q.env[nm] = e.new_array(q, nm, [ln], m.group(1), dt)
+                nxt.append(q)
+        heads = nxt
+    return heads
+
+
 def inv_formula(e, st, lspec):
     fs = []
     for t in lspec.invariant:
@@ -128,7 +163,7 @@ def check_inv(e, st, lspec, node, kind, k):
         e.oblige(st, kind, g, node, label=f'loop{k}: {t}')
 
 
-def symbolic_for(e, s, st, rng):
+def symbolic_for(e, s, st, rng, elems=None):
     k = e.loop_ordinal(s)
     lspec = e.spec.loops.get(k)
     if lspec is None:
@@ -136,6 +171,9 @@ def symbolic_for(e, s, st, rng):
     if not isinstance(s.target, ast.Name):
         raise Unsupported('tuple loop target')
     var = s.target.id
+    if elems is not None:
+        # loop over a chunk sequence: the position index is hidden in the program; the contract names it (LoopSpec.index)
+        var = lspec.index or '__chunk_index'
     start, stop = I(rng.start), I(rng.stop)
     step = conc_int(simp(I(rng.step)))
     if step is None or step <= 0:
@@ -157,10 +195,24 @@ def symbolic_for(e, s, st, rng):
         kk = fresh('iter', z3.IntSort())
         h.pc.append(z3.And(kk >= 0, iv == start + step * kk))
     h.env['__pre_loop__'] = entry
+    if lspec.kinds:
+        if parallel:
+            raise Unsupported('structural kinds in a prange loop')
+        outs = []
+        for hd in expand_kinds(e, h, lspec):
+            outs += _for_head(e, s, hd, lspec, k, var, iv, start, stop, step, parallel, entry, elems)
+        return outs
+    return _for_head(e, s, h, lspec, k, var, iv, start, stop, step, parallel, entry, elems)
+
+
+def _for_head(e, s, h, lspec, k, var, iv, start, stop, step, parallel, entry, elems):
     h.pc.extend(inv_formula(e, h, lspec))
     # body
     b = h.fork()
     b.pc.append(iv < stop)
+    if elems is not None:
+        sa = elems.stream
+        b.env[s.target.id] = Arr(sa.base, [('r', elems.cut(iv), elems.cut(iv + 1) - elems.cut(iv))], sa.ety, sa.dt, True)
     b.env['__iter_start__'] = St(dict(b.env), dict(b.heap), b.pc)
     saved_ctx = e.prange_ctx
     saved_hints = e.cur_body_asserts
@@ -170,9 +222,6 @@ def symbolic_for(e, s, st, rng):
             raise ContractError(f'{e.spec.qualname}: prange loop {k} needs a writes footprint')
         e.prange_ctx = PrangeCtx(e, lspec, var, iv, entry, s, k, start, stop)
         e.prange_ctx.disjointness(e, b)
-    elif rng.parallel:
-        # prange in a function compiled without parallel=True is an ordinary range
-        pass
     outs = []
     try:
         body_out = e.exec_block(s.body, [b])
@@ -218,6 +267,13 @@ def symbolic_while(e, s, st):
     h = st
     havoc(e, h, s.body, lspec)
     h.env['__pre_loop__'] = entry
+    outs = []
+    for hd in expand_kinds(e, h, lspec):
+        outs += _while_head(e, s, hd, lspec, k)
+    return outs
+
+
+def _while_head(e, s, h, lspec, k):
     h.pc.extend(inv_formula(e, h, lspec))
     outs = []
     # guard evaluation may itself create obligations (array reads): evaluate on a fork for body and on exit
